@@ -2121,6 +2121,9 @@ def serialize_tensor_into(
     if isinstance(from_, TensorProtoTensor):
         # Directly copy from the tensor proto if it is available
         tensor_proto.CopyFrom(from_.raw)
+        # The IR-side mapping (initialized from the proto and possibly edited since) is the
+        # single source of the metadata: drop the entries that CopyFrom just copied
+        del tensor_proto.metadata_props[:]
         if from_.metadata_props:
             _serialize_metadata_props_into(tensor_proto.metadata_props, from_.metadata_props)
         return
